@@ -17,10 +17,11 @@ BUDGET = {
     "thorough": {"runs": 150_000, "wall": 1500, "chunk": 100, "minimise": 250},
 }
 REQUIRED_PROBES = {"quick": ("op_online_ok", "op_online_refused", "op_online_silent", "op_offline", "s1f15", "s1f17",
-                             "op_local", "op_remote", "illegal_switch", "ce_checked", "offline_from_host_offline"),
+                             "op_local", "op_remote", "illegal_switch", "ce_checked", "offline_from_host_offline",
+                             "race", "op_online_without_communication"),
                    "thorough": ("op_online_ok", "op_online_refused", "op_online_silent", "op_offline", "s1f15", "s1f17",
                                 "op_local", "op_remote", "illegal_switch", "ce_checked", "offline_from_host_offline",
-                                "s1f17_during_probe")}
+                                "s1f17_during_probe", "race", "op_online_without_communication")}
 EVIDENCE = {
     "level": "exploration",
     "rule": ("all initial configurations (EQUIPMENT_OFFLINE / ATTEMPT_ONLINE / HOST_OFFLINE / ONLINE x LOCAL/REMOTE) x "
@@ -43,13 +44,40 @@ SCHEDS = [
     {"policy": "pct", "d": 2, "horizon": 3000, "preempt": "line"},
     {"policy": "rr", "q": 3, "preempt": "line"},
     {"policy": "random", "p": 0.2, "preempt": "sync"},
+    {"policy": "random", "p": 0.5, "preempt": "sync"},
+    {"policy": "pct", "d": 2, "horizon": 150, "preempt": "sync"},
 ]
 OPS = ["op_online", "op_online", "op_offline", "op_offline", "op_local", "op_remote", "s1f15", "s1f17", "s1f17",
-       "s1f3", "op_online_s1f17"]
+       "s1f3", "op_online_s1f17", "comm_down", "comm_up", "comm_up",
+       "race:op_offline:s1f17", "race:op_offline:s1f15", "race:op_local:s1f15", "race:op_remote:s1f15",
+       "race:op_offline:s1f17", "race:op_remote:s1f17"]
 CODE = {"EO": 1, "AO": 2, "HO": 3, "OL": 4, "OR": 5}
 NAME = {"EQUIPMENT_OFFLINE": "EO", "ATTEMPT_ONLINE": "AO", "HOST_OFFLINE": "HO", "ONLINE_LOCAL": "OL",
         "ONLINE_REMOTE": "OR", "ONLINE": "ON?", "OFFLINE": "OFF?", "CONTROL": "CTL?", "INIT": "INIT?"}
 T3 = 2.0
+
+
+def model_apply(st, sub, act):
+    """E30 control model, one action: returns (state, sub-state setting, result, collection events).  result is "ok" /
+    "raise" for operator switches and the acknowledge code for host requests."""
+    online = ("OL", "OR")
+    if act == "op_offline":
+        if st in online:
+            return "EO", sub, "ok", [1]
+        if st == "HO":
+            return "EO", sub, "ok", []
+        return st, sub, "raise", []
+    if act == "op_local":
+        return ("OL", "LOCAL", "ok", [2]) if st == "OR" else (st, sub, "raise", [])
+    if act == "op_remote":
+        return ("OR", "REMOTE", "ok", [3]) if st == "OL" else (st, sub, "raise", [])
+    if act == "s1f15":
+        return ("HO", sub, 0, [1]) if st in online else (st, sub, 0, [])
+    if act == "s1f17":
+        if st == "HO":
+            return ("OL" if sub == "LOCAL" else "OR"), sub, 0, [2 if sub == "LOCAL" else 3]
+        return st, sub, (2 if st in online else 1), []
+    raise AssertionError(act)
 
 
 def gen_plan(rng, tier, index):
@@ -82,7 +110,11 @@ def run(sim, plan):
     eq = env.handler
     probe_mode = {"mode": "s1f2", "inject_s1f17": False, "s1f17_system": None}
 
+    comm = {"down": False}
+
     def peer_setup(peer):
+        peer.answer_s1f13 = not comm["down"]
+
         def s1f1(fr):
             mode = probe_mode["mode"]
             if probe_mode["inject_s1f17"]:
@@ -198,6 +230,120 @@ def run(sim, plan):
     for op, probe in plan["ops"]:
         cur = next(iter(model["states"]))
         hist.append(f"{op}@{cur}")
+        peer = env.peer
+        if op == "comm_down":
+            # the link is lost and comes back, but the host leaves S1F13 unanswered: communication is not established
+            if comm["down"] or env.transport != "hsms":
+                continue
+            sim.probe("comm_down")
+            comm["down"] = True
+            peer.hp.close()
+            sim.wait_until(lambda: env.conn_state == "NOT_CONNECTED", 10)
+            if env.connect(timeout=10) is None:
+                sim.inconclusive("link could not be re-established")
+            sim.advance(0.3)
+            if env.comm_state == "COMMUNICATING":
+                sim.inconclusive("communicating although S1F13 was not answered (C07's subject)")
+            peer = env.peer
+            seen_s6f11["n"] = 0      # a new scripted peer with an empty inbox
+            # E30 has no control-state transition for a loss of communication; secsgem's equipment handler deliberately
+            # goes off-line and attempts on-line again (which fails without communication).  Link loss is not among the
+            # histories of the property: either behaviour is taken as the starting point of what follows
+            model["states"] = {cur, "HO", "EO"}
+            check_state("comm_down")
+            continue
+        if op == "comm_up":
+            if not comm["down"]:
+                continue
+            comm["down"] = False
+            env.peer.answer_s1f13 = True
+            if not sim.wait_until(lambda: env.comm_state == "COMMUNICATING", T3 + 1 + 4):
+                sim.inconclusive("communication was not re-established (C07's subject)")
+            sim.advance(0.3)
+            new_events()
+            check_state("comm_up")
+            continue
+        if comm["down"]:
+            # no communication: only the operator acts; nothing can be reported to the host
+            if op == "op_online":
+                probe_mode["mode"] = probe      # a permissive host would even answer an S1F1 that must not be sent
+                rec = operator("online", eq.control_switch_online)
+                if cur == "EO":
+                    sim.probe("op_online_without_communication")
+                    nontrivial = True
+                    model["states"] = {"HO", "EO"}      # the attempt fails: no S1F1/S1F2 exchange is possible
+                    check_state("op_online:not-communicating")
+                else:
+                    if rec["exc"] is None:
+                        sim.violation("C11.R1", f"operator ON-LINE in {cur} did not raise",
+                                      sig=f"C11.R1|online-in-{cur}-no-raise")
+                    check_state("op_online:illegal")
+            elif op in ("op_offline", "op_local", "op_remote"):
+                st2, sub2, res, _ev = model_apply(cur, model["sub"], op)
+                rec = operator(op, {"op_offline": eq.control_switch_offline, "op_local": eq.control_switch_online_local,
+                                    "op_remote": eq.control_switch_online_remote}[op])
+                if (rec["exc"] is None) != (res == "ok"):
+                    sim.violation("C11.R1", f"{op} in {cur} without communication: " +
+                                  ("raised " + repr(rec["exc"]) if rec["exc"] is not None else "did not raise"),
+                                  sig=f"C11.R1|{op}-in-{cur}-" + ("raised" if rec["exc"] is not None else "no-raise"))
+                model["states"], model["sub"] = {st2}, sub2
+                check_state(op + ":not-communicating")
+            new_events()
+            continue
+        if op.startswith("race:"):
+            # an operator switch and a host request at the same time: the outcome must be that of one of the two orders
+            _r, oa, ha = op.split(":")
+            outcomes = []
+            for order in ((oa, ha), (ha, oa)):
+                st, sb, res = cur, model["sub"], {}
+                for a in order:
+                    st, sb, r, _e = model_apply(st, sb, a)
+                    res[a] = r
+                outcomes.append((st, sb, res[oa], res[ha]))
+            sim.probe("race")
+            nontrivial = True
+            rec = {"done": False, "exc": None}
+            fn = {"op_offline": eq.control_switch_offline, "op_local": eq.control_switch_online_local,
+                  "op_remote": eq.control_switch_online_remote}[oa]
+
+            def body(fn=fn, rec=rec):
+                try:
+                    fn()
+                except Exception as exc:  # noqa: BLE001
+                    rec["exc"] = exc
+                rec["done"] = True
+
+            if probe in ("s1f2", "none"):
+                sim.spawn(body, f"operator_{oa}", role="app")
+                system = peer.send_primary(1, 15 if ha == "s1f15" else 17, None, True)
+            else:
+                system = peer.send_primary(1, 15 if ha == "s1f15" else 17, None, True)
+                sim.spawn(body, f"operator_{oa}", role="app")
+            sim.focus(2)
+            if not sim.wait_until(lambda: rec["done"] and peer.replies(system), T3 + 3):
+                sim.violation("C11.R1", f"race {oa} / {ha} in {cur}: operator done={rec['done']}, replies "
+                              f"{peer.replies(system)}", sig="C11.R1|race-stuck")
+            sim.advance(0.3)
+            rep = peer.replies(system)
+            got_op = "ok" if rec["exc"] is None else "raise"
+            got_ack = None
+            if len(rep) == 1 and (rep[0].stream, rep[0].function) == (1, 16 if ha == "s1f15" else 18):
+                got_ack = rc.decode_body(rep[0].body).value[0]
+            elif len(rep) == 1 and (rep[0].stream, rep[0].function) == (1, 0):
+                got_ack = "abort"      # the handler lost the race inside its transition: request aborted, no effect
+                sim.probe("race_request_aborted")
+            got_state = observed()
+            ok = any(o[0] == got_state and o[2] == got_op and (o[3] == got_ack or got_ack == "abort") for o in outcomes)
+            if not ok:
+                sim.violation("C11.R1", f"operator {oa} and host {ha} at the same time in {cur}: ended in "
+                              f"{eq.control_state.current.name} with operator result {got_op} and acknowledge {got_ack}; "
+                              f"the two possible orders give {outcomes}; history {hist[-6:]}",
+                              sig=f"C11.R1|race|{oa}|{ha}|{cur}")
+            match = [o for o in outcomes if o[0] == got_state and o[2] == got_op]
+            model["states"] = {got_state}
+            model["sub"] = "LOCAL" if got_state == "OL" else "REMOTE" if got_state == "OR" else match[0][1]
+            new_events()
+            continue
         if op in ("op_online", "op_online_s1f17"):
             probe_mode["mode"] = probe
             inject = op == "op_online_s1f17" and cur == "EO"
